@@ -635,6 +635,14 @@ pub mod verif_hooks_psdcone_step {
         data.workmat1.lrscale(&data.Λisqrt, &data.Λisqrt);
         data.workmat1.data().to_vec()
     }
+    /// does LAPACK succeed on the matrix `step_length_psd_component` builds from `d`?
+    /// (`false` is the branch in which that function reports a zero step)
+    pub fn eigvals_ok<T: FloatT>(k: &mut PSDTriangleCone<T>, d: &[T]) -> bool {
+        let data = &mut *k.data;
+        svec_to_mat(&mut data.workmat1, d);
+        data.workmat1.lrscale(&data.Λisqrt, &data.Λisqrt);
+        data.Eig.eigvals(&mut data.workmat1).is_ok()
+    }
     /// `margins(z)` together with the eigenvalues it read from LAPACK (empty for an
     /// empty cone, where LAPACK is not called)
     pub fn margins_with_eigs<T: FloatT>(
